@@ -374,5 +374,154 @@ def r17_6(ctx):
     return r
 
 
+def _strong_ty(ty):
+    t = ty.strip()
+    if t.startswith("&") or "Weak<" in t:
+        return False
+    return t.startswith("std::sync::Arc<peer_connection::PeerConnectionInner>") or t == "peer_connection::PeerConnection"
+
+
+def _always_true(ctx, fn):
+    """every value `fn` returns is the constant true"""
+    if not ctx.facts.has_body(fn):
+        return False
+    b = ctx.body(fn)
+    vals = [b.term_rvalue(st["rv"]) for bi, si, st in b.assigns() if st["p"]["l"] == 0 and "p" not in st["p"]]
+    return bool(vals) and all(v[:2] == ("const", 1) for v in vals) and not any(t["dst"]["l"] == 0 for _, t, _ in b.calls())
+
+
+# reviewed exceptions of R17.7: (coroutine body, local name) -> (mechanically checked justification, text)
+STRONG_EXCEPTIONS = {
+    ("peer_connection::run_gathering_loop::{closure#0}", "inner"): (
+        lambda ctx: _always_true(ctx, "peer_connection::update_local_description_on_gather"),
+        "the inner wait loop is entered only when update_local_description_on_gather() returns false, and every return of that "
+        "function is the constant true (re-checked on every run): unreachable"),
+}
+
+
+def _arg_roots(b, op, hops=8):
+    """locals an operand is derived from by copies / references / re-borrows"""
+    out = set()
+    if not isinstance(op, dict) or op.get("k") not in ("cp", "mv"):
+        return out
+    l = op["p"]["l"]
+    for _ in range(hops):
+        out.add(l)
+        ds = b.defs().get(l, [])
+        if len(ds) != 1 or ds[0][0] != "s":
+            break
+        rv = b.blocks[ds[0][1]]["s"][ds[0][2]]["rv"]
+        if rv["r"] == "use" and rv["o"].get("k") in ("cp", "mv"):
+            l = rv["o"]["p"]["l"]
+        elif rv["r"] in ("ref", "addr", "rawptr"):
+            l = rv["p"]["l"]
+        else:
+            break
+    return out
+
+
+def _awaits_call_on_handle(b, y, handles):
+    """the future suspended at yield block y was produced by a call that takes one of `handles` (by value or
+    reference) as an argument - e.g. `pc_temp.start_dtls(..).await`"""
+    # the poll that leads to this yield
+    polls = [bi for bi in range(len(b.blocks)) if b.blocks[bi]["t"]["k"] == "call" and
+             (mir.callee_path(b.blocks[bi]["t"]["f"]) or "").endswith("Future::poll")]
+    best = None
+    for pb in polls:
+        q = b.path_to([b.blocks[pb]["t"].get("to")], y, cut_edges=b.back_edges())
+        if q is not None and (best is None or len(q) < best[1]):
+            best = (pb, len(q))
+    if best is None or best[1] > 4:
+        return False
+    fut_roots = _arg_roots(b, b.blocks[best[0]]["t"]["a"][0], hops=10)
+    # walk back through Pin::new_unchecked / into_future to the call that made the future
+    seen, work = set(), list(fut_roots)
+    while work:
+        l = work.pop()
+        if l in seen:
+            continue
+        seen.add(l)
+        for d in b.defs().get(l, []):
+            if d[0] == "t":
+                t = b.blocks[d[1]]["t"]
+                path = mir.callee_path(t["f"]) or ""
+                for a in t["a"]:
+                    roots = _arg_roots(b, a)
+                    if roots & set(handles) and not path.endswith(("into_future", "new_unchecked")):
+                        return True
+                    if path.endswith(("into_future", "new_unchecked", "Pin::<Ptr>::new_unchecked")):
+                        work.extend(roots)
+            else:
+                rv = b.blocks[d[1]]["s"][d[2]]["rv"]
+                if rv["r"] in ("ref", "addr", "rawptr"):
+                    work.append(rv["p"]["l"])
+                elif rv["r"] == "use" and rv["o"].get("k") in ("cp", "mv"):
+                    work.append(rv["o"]["p"]["l"])
+    return False
+
+
+def r17_7(ctx):
+    """dropping the last application handle must run Drop for PeerConnectionInner - the only place that stops the
+    transports and aborts the tracked tasks. A background task of the connection therefore may not keep a strong
+    handle (Arc<PeerConnectionInner> or a PeerConnection) alive while it waits inside a loop: it upgrades its Weak
+    for the duration of one step. Exempt: awaiting a call made ON that handle (the handle is the receiver), which
+    ends when the call ends."""
+    r = RuleResult("R17.7", "K5/liveness", "connection tasks hold the PeerConnection only weakly while they wait in a loop")
+    n = 0
+    for b in ctx.facts.bodies(prefix="peer_connection::"):
+        if "::tests::" in b.name or not b.coroutine:
+            continue
+        strong = [i for i, l in enumerate(b.locals) if _strong_ty(l["ty"])]
+        if not strong:
+            continue
+        # user loops only: the poll loop an `.await` desugars into is not a loop the task "waits in"
+        await_hdrs = {hdr for (src, hdr) in b.back_edges() if b.blocks[src]["t"]["sp"]["x"] == "d:Await"}
+        loops = set()
+        for h, bl in b.loops():
+            if h not in await_hdrs:
+                loops |= bl
+        ys = [i for i, blk in enumerate(b.blocks) if blk["t"]["k"] == "yield" and i in loops]
+        if not ys:
+            continue
+        # only tasks of the connection itself (spawned loops), not API methods awaited by the application
+        base = b.name.split("::{closure")[0]
+        if base.startswith("peer_connection::PeerConnection::") and not base.endswith(("create_rtcp_loop", "create_pair_monitor", "spawn_transport_loops")) \
+                and "::{closure#0}::{closure" not in b.name:
+            continue
+        r.scope.append(b.name)
+        for l in strong:
+            live = core.live_at_terminator(b, l)
+            for y in ys:
+                n += 1
+                if y not in live:
+                    r.ok(None)
+                    continue
+                # what is being awaited at this yield: the future polled just before
+                awaited = None
+                for pb in b.preds(y):
+                    pass
+                fut_terms = []
+                for bi2 in range(len(b.blocks)):
+                    t2 = b.blocks[bi2]["t"]
+                    if t2["k"] == "call" and (mir.callee_path(t2["f"]) or "").endswith("Future::poll") and y in b.reachable([t2.get("to")], cut_edges=b.back_edges()) \
+                            and len(b.path_to([t2.get("to")], y, cut_edges=b.back_edges()) or range(99)) <= 4:
+                        fut_terms.append(b.term_operand(t2["a"][0]))
+                uses_handle = _awaits_call_on_handle(b, y, strong)
+                exc = STRONG_EXCEPTIONS.get((b.name, b.locals[l].get("n")))
+                if exc and exc[0](ctx):
+                    r.ok({"site": b.where(y), "holds": b.locals[l].get("n"), "exception": exc[1]})
+                    continue
+                if uses_handle:
+                    r.ok({"site": b.where(y), "holds": b.locals[l].get("n") or "_%d" % l, "exempt": "awaits a call on the handle itself"})
+                else:
+                    r.violate(b.name, "strong-across-await:%s" % (b.locals[l].get("n") or "_%d" % l), b.where(y),
+                              "a strong handle to the connection (%s: %s) is alive while this task waits inside a loop: dropping the last "
+                              "application handle cannot run Drop, so the transports and tracked tasks are never released" %
+                              (b.locals[l].get("n") or "_%d" % l, b.locals[l]["ty"][:60]))
+    r.samples = [x for x in r.samples if x]
+    r.need("(strong handle, await-in-loop) pairs examined", n, 8)
+    return r
+
+
 def run(ctx):
-    return [r17_1(ctx), r17_2(ctx), r17_3(ctx), r17_4(ctx), r17_5(ctx), r17_6(ctx)]
+    return [r17_1(ctx), r17_2(ctx), r17_3(ctx), r17_4(ctx), r17_5(ctx), r17_6(ctx), r17_7(ctx)]
